@@ -98,7 +98,7 @@ def oracle(case, obs):
 
 
 def context(case):
-    evs = [e[1][0] for e in case['events'] if e[0] == 'ctl']
+    evs = [e[1][0] if e[0] == 'ctl' else 'resume' for e in case['events'] if e[0] in ('ctl', 'resume!')]
     return '>'.join(evs)
 
 
@@ -109,7 +109,7 @@ def nontrivial(case, obs):
         any(e[0] == 'ctl' and e[1][0] == 'pause' and e[2][0] == 'action' for e in obs['trace'])
 
 
-EVENTS = [['ctl', ['pause', 'p-msg']], ['ctl', ['pause', None]], ['ctl', ['play']]]
+EVENTS = [['ctl', ['pause', 'p-msg']], ['ctl', ['pause', None]], ['ctl', ['play']], ['resume!']]
 
 
 def generate(tier, rng, around=None):
@@ -123,7 +123,7 @@ def generate(tier, rng, around=None):
         # resume and the tick (same loop iteration as the wake-up)
         skeleton = [x for _ in range(n) for x in (['resume*'], ['tick'])]
         positions = [p for p in range(len(skeleton) + 1) if resumes or p % 2 == 0]
-        singles = [(b, e) for b in positions for e in EVENTS]
+        singles = [(b, e) for b in positions for e in (EVENTS if resumes else EVENTS[:3])]
         cases.append(dict(base, events=[['auto', 40]]))
         for b, e in singles:
             cases.append(dict(base, events=life.place_on(skeleton, [(b, e)]) + [['auto', 40]]))
@@ -132,6 +132,15 @@ def generate(tier, rng, around=None):
         k = {'quick': 220, 'thorough': 100000, 'widen': 1500}[tier]
         for i, j in (pairs if len(pairs) <= k else rng.sample(pairs, k)):
             cases.append(dict(base, events=life.place_on(skeleton, [singles[i], singles[j]]) + [['auto', 40]]))
+        # several requests inside one loop iteration: every ordered selection of <= 3 distinct requests at one boundary
+        gap = [['ctl', ['pause', 'p-msg']], ['ctl', ['play']]] + ([['resume!']] if resumes else [])
+        for b in positions:
+            for r in (2, 3):
+                for seq in itertools.permutations(gap, r):
+                    cases.append(dict(base, events=life.place_on(skeleton, [(b, e) for e in seq]) + [['auto', 40]]))
+            if tier != 'quick':
+                for seq in itertools.product(gap, repeat=4):
+                    cases.append(dict(base, events=life.place_on(skeleton, [(b, e) for e in seq]) + [['auto', 40]]))
         # pause earlier, then play and pause again inside one loop iteration (and the other orders)
         trip = [(a, b, c) for a in range(len(singles)) for b in range(len(singles)) for c in range(len(singles))
                 if singles[a][0] <= singles[b][0] == singles[c][0] and b != c]
